@@ -68,7 +68,7 @@ func OracleC10(tr *Trace) Verdict {
 			}
 		}
 	}
-	if !(p.FaultFree() && onlyStarts && timely && p.MaxRTT() <= p.H/10) {
+	if !(p.FaultFree() && timely && p.MaxRTT() <= p.H/10) {
 		v.Classes = append(v.Classes, "promptness-premise-false")
 		sortViols(v.Viols)
 		return v
@@ -81,6 +81,29 @@ func OracleC10(tr *Trace) Verdict {
 			}
 		}
 	}
+	// running(x, from, to): instance x was started and no stop call on it began in [from, to]
+	running := func(x int, from, to time.Duration) bool {
+		started := false
+		for _, a := range tr.APIs {
+			if a.Inst != x {
+				continue
+			}
+			switch a.Call {
+			case "Start":
+				if a.Err == "" && a.RetT <= from {
+					started = true
+				}
+			case "Stop", "StopWithContext", "CancelStartContext":
+				if a.CallT <= to && a.CallT >= 0 {
+					if a.CallT >= from {
+						return false
+					}
+					started = false
+				}
+			}
+		}
+		return started
+	}
 	storedPrio := func(c *Claim) int { return p.Instances[c.Inst].Priority }
 	for _, c := range claims {
 		if c.FromT >= tr.End {
@@ -92,6 +115,23 @@ func OracleC10(tr *Trace) Verdict {
 				continue
 			}
 			t := max(c.FromT, sx)
+			if !onlyStarts {
+				// with stops and restarts in the plan: x counts from its latest Start before the window, and
+				// must be running (no stop call) throughout it
+				var latest time.Duration = -1
+				for _, a := range tr.APIs {
+					if a.Inst == x && a.Call == "Start" && a.Err == "" && (c.ToSeq < 0 || a.RetT < c.ToT) {
+						latest = a.RetT
+					}
+				}
+				if latest < 0 {
+					continue
+				}
+				t = max(c.FromT, latest)
+				if !running(x, t, t+3*p.H) {
+					continue
+				}
+			}
 			if c.ToSeq >= 0 && c.ToT <= t {
 				continue // that term was over before x was there
 			}
@@ -131,7 +171,7 @@ func OracleC10(tr *Trace) Verdict {
 		lastStart = max(lastStart, s)
 	}
 	settle := lastStart + 3*p.H + p.H + 2*T + time.Second
-	if settle < tr.End {
+	if settle < tr.End && onlyStarts {
 		for _, g := range p.Groups() {
 			top := 0
 			for i, in := range p.Instances {
